@@ -220,7 +220,12 @@ func (ts *TimeSeries) TakeFrom(src []byte) ([]byte, error) {
 		return nil, errors.New("untilTime is older than fromTime")
 	}
 
-	n := int(ts.untilTime.Sub(ts.fromTime) / ts.step)
+	if ts.step < 0 {
+		return nil, errors.New("step must not be negative")
+	}
+	// NOTE: compute the count from the unsigned difference. Timestamp.Sub
+	// returns a negative Duration if the difference exceeds 31 bits.
+	n := int(uint32(ts.untilTime-ts.fromTime) / uint32(ts.step))
 	wantedSize := n * float64Size
 	if len(src) < wantedSize {
 		return nil, &WantLargerBufferError{WantedBufSize: 3*uint32Size + wantedSize}
@@ -316,6 +321,10 @@ func (pp *Points) TakeFrom(src []byte) ([]byte, error) {
 
 	count := int(binary.BigEndian.Uint64(src))
 	src = src[uint64Size:]
+	const maxInt = int(^uint(0) >> 1)
+	if count < 0 || count > (maxInt-uint64Size)/pointSize {
+		return nil, errors.New("invalid points count")
+	}
 
 	wantedSize := count * pointSize
 	if len(src) < wantedSize {
